@@ -490,6 +490,7 @@ fn emit_ms_case<Ctx: ScriptContext>(
     writeln!(out, "CASE {} {} ctx={}", id, kind, ctx_name(kind)).unwrap();
     writeln!(out, "MS {}", dump_str(w, &m.node)).unwrap();
     writeln!(out, "RL {}", m.within_resource_limits() as u8).unwrap();
+    writeln!(out, "SCRIPTLEN {} {}", m.encode().len(), m.script_size()).unwrap();
     let (line, ok) = lift_line(w, catch_unwind(AssertUnwindSafe(|| m.lift())));
     writeln!(out, "{}", line).unwrap();
     if ok {
@@ -532,7 +533,7 @@ fn emit_desc_case(
     id: u64,
     kind: &str,
     desc: &Descriptor<Key>,
-    leaves: &[(String, bool)],
+    leaves: &[(String, bool, (usize, usize))],
     keyonly: Option<usize>,
     internal: Option<usize>,
     atoms: &Atoms,
@@ -542,9 +543,10 @@ fn emit_desc_case(
 ) {
     writeln!(out, "CASE {} {} ctx={}", id, kind, ctx_name(kind)).unwrap();
     writeln!(out, "DESC {}", desc).unwrap();
-    for (d, rl) in leaves {
+    for (d, rl, sl) in leaves {
         writeln!(out, "MS {}", d).unwrap();
         writeln!(out, "RL {}", *rl as u8).unwrap();
+        writeln!(out, "SCRIPTLEN {} {}", sl.0, sl.1).unwrap();
     }
     if let Some(k) = keyonly {
         writeln!(out, "KEYONLY {}", k).unwrap();
@@ -599,6 +601,20 @@ pub fn run(args: &[String]) {
         .unwrap();
     }
     print!("{}", hdr);
+    // committed corpus of minimized failures (earlier mutation witnesses, known findings): run first
+    if part == 0 {
+        for (i, (kind, leaves)) in CORPUS.iter().enumerate() {
+            let id = 1_000_001 + i as u64;
+            let mut rng = Rng(seed ^ id);
+            let mut out = String::new();
+            let r = catch_unwind(AssertUnwindSafe(|| corpus_case(&w, &sg, id, kind, leaves, &mut rng, cap, &mut out)));
+            match r {
+                Ok(true) => print!("{}", out),
+                Ok(false) => println!("NOTE corpus case={} kind={} rejected-by-the-library", id, kind),
+                Err(_) => println!("PANIC harness corpus case={} kind={}", id, kind),
+            }
+        }
+    }
     for c in 0..n {
         if c % nparts != part {
             continue;
@@ -648,7 +664,7 @@ fn one_case(w: &World, sg: &Sigs, c: u64, cseed: u64, depth: u32, id: u64, rng: 
             if let Some(m) = gen_ms::<Segwitv0>(w, cseed, seg, depth, 0) {
                 let mut a = Atoms::default();
                 collect_atoms(w, &m, &mut a);
-                let lv = vec![(dump_str(w, &m.node), m.within_resource_limits())];
+                let lv = vec![(dump_str(w, &m.node), m.within_resource_limits(), (m.encode().len(), m.script_size()))];
                 let (d, kind) = if c % 12 == 4 {
                     (Descriptor::new_wsh(m), "wsh")
                 } else {
@@ -663,7 +679,7 @@ fn one_case(w: &World, sg: &Sigs, c: u64, cseed: u64, depth: u32, id: u64, rng: 
             if let Some(m) = gen_ms::<Legacy>(w, cseed, leg, depth, 0) {
                 let mut a = Atoms::default();
                 collect_atoms(w, &m, &mut a);
-                let lv = vec![(dump_str(w, &m.node), m.within_resource_limits())];
+                let lv = vec![(dump_str(w, &m.node), m.within_resource_limits(), (m.encode().len(), m.script_size()))];
                 if let Ok(d) = Descriptor::new_sh(m) {
                     emit_desc_case(w, sg, id, "sh", &d, &lv, None, None, &a, rng, cap, out)
                 }
@@ -687,7 +703,7 @@ fn one_case(w: &World, sg: &Sigs, c: u64, cseed: u64, depth: u32, id: u64, rng: 
             if let Some(m) = m {
                 let mut a = Atoms::default();
                 collect_atoms(w, &m, &mut a);
-                let lv = vec![(dump_str(w, &m.node), m.within_resource_limits())];
+                let lv = vec![(dump_str(w, &m.node), m.within_resource_limits(), (m.encode().len(), m.script_size()))];
                 if let Ok(d) = Descriptor::new_bare(m) {
                     emit_desc_case(w, sg, id, "bare", &d, &lv, None, None, &a, rng, cap, out)
                 }
@@ -704,7 +720,7 @@ fn one_case(w: &World, sg: &Sigs, c: u64, cseed: u64, depth: u32, id: u64, rng: 
                 let d = if nleaves >= 3 { depth.min(1) } else { depth.min(2) };
                 if let Some(m) = gen_ms::<Tap>(w, cseed.wrapping_mul(31).wrapping_add(l), tap, d, 0) {
                     collect_atoms(w, &m, &mut a);
-                    lv.push((dump_str(w, &m.node), m.within_resource_limits()));
+                    lv.push((dump_str(w, &m.node), m.within_resource_limits(), (m.encode().len(), m.script_size())));
                     leaves.push(m);
                 }
             }
@@ -735,4 +751,112 @@ fn one_case(w: &World, sg: &Sigs, c: u64, cseed: u64, depth: u32, id: u64, rng: 
             }
         }
     }
+}
+
+/// Corpus cases: (kind, miniscript strings; K0..K7 are the World keys, x-only in tap kinds).
+/// ids 1000001.. ; always emitted by part 0.
+const CORPUS: &[(&str, &[&str])] = &[
+    // known finding (pk_cost of multi with uncompressed keys): 521-byte P2SH redeem script accepted and lifted
+    ("sh", &["and_v(v:multi(1,K6,K7,K6,K7,K6,K7,K6),and_v(v:pkh(K0),and_v(v:older(65535),pkh(K1))))"]),
+    // witnesses of mutations caught while building the check
+    ("sh", &["andor(multi(1,K0),1,0)"]),
+    ("ms-tap", &["or_i(1,0)"]),
+    ("tr", &["after(395)", "after(1)", "j:pk(K0)"]),
+    ("bare", &["multi(1,K3,K5)"]),
+    ("ms-segv0", &["or_d(pk(K0),1)"]),
+    ("wsh", &["andor(pkh(K0),older(5),pk(K1))"]),
+    ("ms-segv0", &["thresh(2,pk(K0),s:pk(K1),a:0,a:or_i(0,pk(K2)))"]),
+    ("ms-legacy", &["and_v(v:pk(K0),and_v(v:pk(K1),and_v(v:after(10),after(20))))"]),
+    ("tr", &["and_v(v:pk(K0),1)", "multi_a(2,K1,K2,K3)"]),
+];
+
+fn subst_keys(w: &World, s: &str, tap: bool) -> String {
+    let mut r = s.to_string();
+    for i in 0..N_KEYS {
+        r = r.replace(&format!("K{}", i), &format!("{}", w.key(i, tap)));
+    }
+    r
+}
+
+fn corpus_case(w: &World, sg: &Sigs, id: u64, kind: &str, leaves: &[&str], rng: &mut Rng, cap: usize, out: &mut String) -> bool {
+    fn p<Ctx: ScriptContext>(w: &World, s: &str, tap: bool) -> Option<Ms<Ctx>> {
+        Miniscript::<Key, Ctx>::from_str_insane(&subst_keys(w, s, tap)).ok()
+    }
+    macro_rules! desc1 {
+        ($ctx:ty, $mk:expr) => {{
+            let m = match p::<$ctx>(w, leaves[0], false) {
+                Some(m) => m,
+                None => return false,
+            };
+            let mut a = Atoms::default();
+            collect_atoms(w, &m, &mut a);
+            let lv = vec![(dump_str(w, &m.node), m.within_resource_limits(), (m.encode().len(), m.script_size()))];
+            match $mk(m) {
+                Ok(d) => emit_desc_case(w, sg, id, kind, &d, &lv, None, None, &a, rng, cap, out),
+                Err(_) => return false,
+            }
+        }};
+    }
+    match kind {
+        "ms-segv0" => match p::<Segwitv0>(w, leaves[0], false) {
+            Some(m) => emit_ms_case(w, sg, id, kind, &m, rng, cap, out),
+            None => return false,
+        },
+        "ms-legacy" => match p::<Legacy>(w, leaves[0], false) {
+            Some(m) => emit_ms_case(w, sg, id, kind, &m, rng, cap, out),
+            None => return false,
+        },
+        "ms-bare" => match p::<BareCtx>(w, leaves[0], false) {
+            Some(m) => emit_ms_case(w, sg, id, kind, &m, rng, cap, out),
+            None => return false,
+        },
+        "ms-tap" => match p::<Tap>(w, leaves[0], true) {
+            Some(m) => emit_ms_case(w, sg, id, kind, &m, rng, cap, out),
+            None => return false,
+        },
+        "wsh" => desc1!(Segwitv0, Descriptor::new_wsh),
+        "shwsh" => desc1!(Segwitv0, Descriptor::new_sh_wsh),
+        "sh" => {
+            // through the descriptor parser (Miniscript::from_str_insane validates the real script size)
+            use std::str::FromStr;
+            let d = match Descriptor::<Key>::from_str(&format!("sh({})", subst_keys(w, leaves[0], false))) {
+                Ok(d) => d,
+                Err(_) => return false,
+            };
+            let m = match d {
+                Descriptor::Sh(ref sh) => match sh.as_inner() {
+                    miniscript::descriptor::ShInner::Ms(ms) => ms.clone(),
+                    _ => return false,
+                },
+                _ => return false,
+            };
+            let mut a = Atoms::default();
+            collect_atoms(w, &m, &mut a);
+            let lv = vec![(dump_str(w, &m.node), m.within_resource_limits(), (m.encode().len(), m.script_size()))];
+            emit_desc_case(w, sg, id, kind, &d, &lv, None, None, &a, rng, cap, out)
+        }
+        "bare" => desc1!(BareCtx, Descriptor::new_bare),
+        "tr" => {
+            let mut ms = Vec::new();
+            let mut a = Atoms::default();
+            let mut lv = Vec::new();
+            for l in leaves {
+                match p::<Tap>(w, l, true) {
+                    Some(m) => {
+                        collect_atoms(w, &m, &mut a);
+                        lv.push((dump_str(w, &m.node), m.within_resource_limits(), (m.encode().len(), m.script_size())));
+                        ms.push(m)
+                    }
+                    None => return false,
+                }
+            }
+            push_u(&mut a.keys, 5);
+            match tap_tree(ms, 0).and_then(|t| Descriptor::new_tr(w.key(5, true), Some(t)).ok()) {
+                Some(d) => emit_desc_case(w, sg, id, kind, &d, &lv, None, Some(5), &a, rng, cap, out),
+                None => return false,
+            }
+        }
+        _ => return false,
+    }
+    true
 }
